@@ -352,6 +352,7 @@ class Part:
     node: "ast.AST | None" = None
     partial: bool = False
     loop: "Loop | None" = None
+    template: tuple = ()  # filter parts whose elements are collections derived from the element (its "lineage"): their parts
 
     def where(self) -> str:
         return f"{self.fi.relpath}:{getattr(self.node, 'lineno', 0)}" if self.fi is not None else ""
@@ -1058,6 +1059,9 @@ class Interp:
                 pass
             depth = len(self.loops)
             lp = Loop(f"x{depth}", Coll(generic, list(c.removals), c.label), node, fr.fi)
+            tpls = [p.template for p in generic if p.kind == "filter"]
+            if tpls and tpls[0] and all(p.kind == "filter" for p in generic) and all(t == tpls[0] or [(q.what, q.items, q.node) for q in t] == [(q.what, q.items, q.node) for q in tpls[0]] for t in tpls):
+                lp.template = tpls[0]  # type: ignore[attr-defined]
             runs.append((None, TRUE, lp, lp.sym))
         return runs
 
@@ -1191,6 +1195,12 @@ class Interp:
             return self.apply(fr, value.fn, [inner], node)
         if value is None:
             assert lp is not None
+            tpl = getattr(lp, "template", None)
+            if tpl:
+                # the elements are collections derived from an element: the template instantiated for the generic element
+                old = tpl[0].sym
+                g = self.guard()
+                return Coll([replace(q, guard=g, sym=lp.sym, src=lp.src, loop=lp, partial=False) if old == lp.sym or True else q for q in tpl], label="lineage")
             return Elem(lp.sym, lp)
         return value
 
@@ -1457,6 +1467,14 @@ class Interp:
         if self.imprecise():
             c.parts.append(Part("lit", g, items=(v,), fi=fi, node=node, partial=True))
             return
+        if isinstance(v, Coll) and v.parts and not v.removals:
+            lps = {id(p.loop) for p in v.parts}
+            lp0 = v.parts[0].loop
+            if len(lps) == 1 and lp0 is not None and lp0.active and any(l is lp0 for l in self.loops) and all(p.kind == "adds" for p in v.parts):
+                # a value made of the names of the current element (importee and ancestors as one tuple / frozenset): the
+                # collection holds one such value per element that passes - like the element itself, with the value as template
+                c.parts.append(Part("filter", g, src=lp0.src, sym=lp0.sym, fi=fi, node=node, partial=lp0.broken, loop=lp0, template=tuple(v.parts)))
+                return
         if r is not None and r.loop.active:
             kindtag = ("import",) if isinstance(v, Importee) or (isinstance(v, Anc) and isinstance(v.of, Importee)) else ("name",)
             if isinstance(v, Elem):
@@ -1520,6 +1538,20 @@ class Interp:
         return Unknown(f"parents({key(name)})", taint_of(name), False)
 
     def member(self, v: V, c: Coll) -> Formula:
+        if isinstance(v, Coll) and v.parts and all(p.kind == "adds" and p.loop is v.parts[0].loop and p.loop is not None for p in v.parts):
+            lpv = v.parts[0].loop
+            alts = []
+            for p in c.parts:
+                if p.kind == "filter" and p.template and p.src is not None:
+                    if lpv.src.parts == p.src.parts or self.member(Elem(lpv.sym, lpv), p.src) == TRUE:
+                        alts.append(rename_sym(p.guard, p.sym, lpv.sym))
+                    else:
+                        alts.append(conj([rename_sym(p.guard, p.sym, lpv.sym), self.member(Elem(lpv.sym, lpv), p.src)]))
+                elif p.kind == "filter" and p.src is not None:
+                    alts.append(conj([rename_sym(p.guard, p.sym, lpv.sym), self.member(v, p.src)]))
+                else:
+                    alts.append(conj([p.guard, self.free(f"IN[lineage({lpv.sym}),{c.label or 'collection'}]")]))
+            return disj(alts)
         k = key(v)
         alts = []
         drawn = self._drawn_from(v) if isinstance(v, Elem) else set()
@@ -1971,6 +2003,8 @@ class Interp:
             for c in self.repo.mro(v.cls):
                 if attr in c.class_attrs:
                     return self.class_attr(fr, c, attr)
+            if attr in ("_replace", "_asdict"):
+                return BoundAPI(v, attr)
             return Unknown(f"{key(v)}.{attr}")
         if isinstance(v, ClassRef):
             m = self.repo.lookup_method(v.ci, attr)
@@ -2267,6 +2301,8 @@ class Interp:
             return self.builtin_filter(fr, args[0], args[1], e, keep=False)
         if name == "bool" and len(args) == 1:
             return BoolV(self.truth(args[0]))
+        if name in ("dataclasses.replace", "replace") and len(args) == 1 and isinstance(args[0], Obj):
+            return Obj(args[0].cls, {**args[0].fields, **kwargs})
         if name == "len" and len(args) == 1:
             a = args[0]
             u = Unknown(f"len({key(a)})", taint_of(a), False)
@@ -2355,6 +2391,12 @@ class Interp:
     def builtin_reduce(self, fr: Frame, args: list, e: ast.Call) -> V:
         """reduce(f, xs, init) where f returns its accumulator extended: the initial collection plus what one generic step adds."""
         f, xs = args[0], args[1]
+        if isinstance(xs, TupleV) and (len(args) == 3 or xs.items):
+            # a literal sequence: the fold is carried out step by step
+            acc_v = args[2] if len(args) == 3 else xs.items[0]
+            for item in (xs.items if len(args) == 3 else xs.items[1:]):
+                acc_v = self.call_value(fr, f, [acc_v, item], {}, e)
+            return acc_v
         if len(args) < 3:
             self.note(f"{fr.fi.qualname}: reduce without initial value not modelled")
             return Unknown("reduce(..)", self._taints(args, {}))
@@ -2462,6 +2504,10 @@ class Interp:
             m = self.repo.lookup_method(recv.cls, attr)
             if m is not None:
                 return self.call_fn(fr, Fn(m, recv), args, kwargs, e)
+            if attr == "_replace" and not args:  # NamedTuple
+                return Obj(recv.cls, {**recv.fields, **kwargs})
+            if attr == "_asdict" and not args:
+                return DictV(f"{key(recv)}._asdict()", self._taints(list(recv.fields.values()), {}))
             fv = recv.fields.get(attr)
             if isinstance(fv, Fn):
                 return self.call_fn(fr, fv, args, kwargs, e)
